@@ -87,6 +87,76 @@ def run_cases(ctx, specs, prop="C01", sig="C01:kernel", do_spec=True):
     return len(specs), nt
 
 
+def big_cases(ctx):
+    """Realistic sizes (60..300 epochs, tight and loose errors, km/s and m/s): the exact Coq evaluation is out of reach there, so these
+    are predicate-only -- the implementation against the numpy closed form (slogdet), finite for every finite valid input."""
+    rng = rng_for(ctx, 101)
+    out = []
+    shapes = [(80, "m/s", 60.0), (160, "km/s", 0.02), (120, "km/s", 1.0), (250, "m/s", 900.0), (60, "km/s", 0.05)]
+    if ctx.tier == "thorough":
+        shapes += [(200, "m/s", 25.0), (240, "km/s", 5.0), (100, "m/s", 3.0)]
+    for n, unit, err in shapes:
+        spec = K.gen_spec(rng, n_max=4, tier="quick", full_frac=0.0, allow_offsets=False)
+        scale = 1.0 if unit == "km/s" else 1000.0
+        t = np.sort(np.round(rng.uniform(0, 900, n) * 64) / 64) + np.arange(n) / 64 + 55000.0
+        rv = np.round(rng.normal(0, 12, n) * 256) / 256 * scale
+        e = np.full(n, err) * (1.0 + 0.25 * (np.arange(n) % 3))
+        spec.update(data_unit=unit, surveys=[dict(t=t.tolist(), rv=rv.tolist(), err=e.tolist())], err_unit=None, big=True)
+        spec.pop("smp_units", None)
+        spec["theta"]["s"] = float(spec["theta"]["s"] != 0) * err / 2  # jitter comparable to the errors, or zero
+        for p_ in spec["lin"]:  # priors in the data's unit
+            f_old = 1.0 if p_["unit"].startswith("km/s") else 1000.0
+            p_["mu"], p_["std"] = p_["mu"] / f_old * scale, p_["std"] / f_old * scale
+            p_["unit"] = p_["unit"].replace("km/s", "@@").replace("m/s", unit).replace("@@", unit)
+        if spec.get("sigma_K0"):
+            sk = spec["sigma_K0"]
+            spec["sigma_K0"] = (sk[0] / (1.0 if sk[1] == "km/s" else 1000.0) * scale, unit)
+        if spec.get("max_K"):
+            mk = spec["max_K"]
+            spec["max_K"] = (mk[0] / (1.0 if mk[1] == "km/s" else 1000.0) * scale, unit) if isinstance(mk, (list, tuple)) else mk
+        out.append(spec)
+    return out
+
+
+def run_light(spec):
+    """marginal_ln_likelihood of the case's row through the public entry point, plus what the closed form needs"""
+    import warnings
+
+    from thejoker.data_helpers import validate_prepare_data
+    from thejoker.thejoker import TheJoker
+
+    data, prior, smp = K.build_problem(spec)
+    with warnings.catch_warnings():
+        warnings.simplefilter("ignore")
+        ll = float(TheJoker(prior, rng=np.random.default_rng(0)).marginal_ln_likelihood(data, smp, in_memory=True)[0])
+        all_data, ids, trend_M = validate_prepare_data(data, prior.poly_trend, prior.n_offsets)
+    th = spec["theta"]
+    kcol = K.kepler_column(all_data._t_bmjd, float(all_data._t_ref_bmjd), dict(P=th["P"], e=th["e"], omega=th["omega"], M0=th["M0"]))
+    return dict(ll=ll, all_data=all_data, trend_M=np.asarray(trend_M, float), kcol=kcol)
+
+
+BIG_TOL = 1e-5  # Woodbury cancellation at hundreds of epochs with tight errors (and numpy's own solve) leave about 1e-6
+
+
+def run_big(ctx):
+    n = 0
+    for spec in big_cases(ctx):
+        n += 1
+        try:
+            o = run_light(spec)
+            ll_cf, _, _ = K.closed_form(spec, o["all_data"], o["trend_M"], o["kcol"])
+        except Exception as e:
+            ctx.fail("predicate", "C01:kernel", f"{len(spec['surveys'][0]['t'])} epochs: raised {type(e).__name__}: {str(e)[:200]}", case=spec)
+            continue
+        ne = len(spec["surveys"][0]["t"])
+        if not math.isfinite(o["ll"]):
+            ctx.fail("predicate", "C01:kernel", f"marginal_ln_likelihood = {o['ll']} for a finite valid input with {ne} epochs in {spec['data_unit']} "
+                     f"(closed form {ll_cf!r})", case=spec)
+        elif abs(o["ll"] - ll_cf) > BIG_TOL * max(1.0, abs(ll_cf)):
+            ctx.fail("predicate", "C01:kernel", f"{ne} epochs in {spec['data_unit']}: marginal_ln_likelihood = {o['ll']!r} but ln N(y | M mu, C + s^2 I + M Lambda M^T) = {ll_cf!r}", case=spec)
+    return n
+
+
 def kernel_setup(ctx, needed=("pyx2v.py",)):
     ctx.make_overlay(need_kernel=True)
     ok = ctx.regen_all(needed=needed)
@@ -119,9 +189,13 @@ def run(ctx):
             if errs:
                 ctx.fail("predicate", "C01:kernel", errs[0], case=spec)
                 break
+    n_big = run_big(ctx)
+    n_eval += n_big
+    ctx.coverage["large_problems_predicate_only"] = n_big
     ctx.coverage.update(evaluations=n_eval, distinct_nontrivial=nt)
     return ctx.finish(
-        rule="random problems: 1..8 epochs (14 thorough) in 1..3 time-disjoint surveys, RV unit km/s or m/s, poly_trend 1..3, 0..2 offsets, default "
+        rule="5 (thorough 8) large problems of 60..300 epochs with tight and loose errors in km/s and m/s, predicate only (numpy closed form, 1e-5); "
+        "random problems: 1..8 epochs (14 thorough) in 1..3 time-disjoint surveys, RV unit km/s or m/s, poly_trend 1..3, 0..2 offsets, default "
         "(FixedCompanionMass, P0 in yr/d/h, optional max_K) or custom Normal K prior, non-zero prior means, prior widths and units varied per "
         "parameter, P prior in d or yr, jitter s in {0, small, comparable to the errors, large}; periods chosen as P0 (a/2^k)^3 so the K-variance "
         "rule is an exact rational; e in [0,0.9]. Non-trivial = s>0 or offsets or poly_trend>1 or non-zero means",
@@ -139,7 +213,12 @@ def replay(ctx, path):
     if spec is None:
         return run(ctx)
     ok = kernel_setup(ctx)
-    if ok:
+    if spec.get("big"):  # large problems are predicate-only
+        o = run_light(spec)
+        ll_cf, _, _ = K.closed_form(spec, o["all_data"], o["trend_M"], o["kcol"])
+        if not math.isfinite(o["ll"]) or abs(o["ll"] - ll_cf) > BIG_TOL * max(1.0, abs(ll_cf)):
+            ctx.fail("predicate", "C01:kernel", f"marginal_ln_likelihood = {o['ll']!r}, closed form {ll_cf!r}", case=spec)
+    elif ok:
         run_cases(ctx, [spec])
     else:
         errs, _ = predicate(spec, K.run_impl(spec))
